@@ -175,6 +175,21 @@ theorem nzeros_eq (sr : ℝ) (freqs : List ℝ) (minf : ℝ) (h : minPos freqs =
     nzeros sr freqs = ⌈sr / minf⌉₊ := by
   simp [nzeros, h]
 
+/-! ## vrs quadrature -/
+
+/-- the area weights of `srs.vrs` (cell-centred `(f_{i+1} - f_{i-1})/2`, one-sided full end cells)
+integrate exactly like the trapezoid rule on the (possibly non-uniform) grid plus half of the first
+cell times the first ordinate plus half of the last cell times the last ordinate. -/
+theorem vrs_quadrature_is_trapezoid_plus_half_end_cells (f0 g0 f1 g1 : ℝ) (rest : List (ℝ × ℝ)) :
+    vrsSum ((f0, g0) :: (f1, g1) :: rest)
+      = some (trapz ((f0, g0) :: (f1, g1) :: rest) + (f1 - f0) / 2 * g0 + endHalf f0 f1 g1 rest) :=
+  vrsSum_eq f0 g0 f1 g1 rest
+
+/-- on three points: weights `f1 - f0`, `(f2 - f0)/2`, `f2 - f1` (non-vacuity / reading aid) -/
+example (f0 f1 f2 g0 g1 g2 : ℝ) :
+    vrsSum [(f0, g0), (f1, g1), (f2, g2)]
+      = some ((f1 - f0) * g0 + ((f2 - f0) / 2 * g1 + (f2 - f1) * g2)) := rfl
+
 /-! ## non-vacuity: the hypotheses are inhabited and the statements are not empty -/
 example : ∃ Q h w : ℝ, 1 / 2 < Q ∧ 0 < h ∧ 0 < w := ⟨10, 1 / 1000, 300, by norm_num, by norm_num, by norm_num⟩
 example : lfilter (⟨[1, 2, 3], [1, 0, 0]⟩ : Coef ℝ) [1, 1] = [1, 3] := by
